@@ -389,6 +389,9 @@ func RunCase(c *Case, prop string, judgeHandOver bool) *Result {
 			break
 		}
 	}
+	if w.InFlight > 0 {
+		res.class("scrapes-in-flight-during-a-cycle")
+	}
 	res.Transfers = w.Transfers
 	res.MaxShards = w.MaxShards
 	if w.Transfers > 0 {
